@@ -9,6 +9,14 @@ mod merkle;
 mod node;
 mod restart;
 mod sync;
+mod work;
+mod pool;
+mod supply;
+mod wallet;
+mod txv;
+mod syncnodes;
+mod produce;
+mod atr;
 
 #[global_allocator]
 static GLOBAL: alloc::Counting = alloc::Counting;
@@ -48,6 +56,29 @@ fn main() {
             let b = if args[3] == "-" { vec![] } else { hex::decode(&args[3]).unwrap() };
             println!("{}", codec::impl_decode(&args[2], &b).0);
         }
+        "bf" => work::run(seed, tier, out),
+        "pool" => pool::run(seed, tier, out),
+        "pool-one" => pool::one(seed, &args[3]),
+        "pool-flags" => println!("{}", pool::calibrate()),
+        "supply" => supply::run(seed, tier, out),
+        "supply-worker" => supply::worker(seed, tier, args[4].parse().unwrap_or(0)),
+        "supply-flags" => println!("{}", supply::calibrate()),
+        "wallet" => wallet::run(seed, tier, out),
+        "wallet-one" => wallet::one(&args[2]),
+        "wallet-flags" => println!("{}", wallet::calibrate()),
+        "txv" => txv::run(seed, tier, out),
+        "txv-flags" => txv::print_flags(),
+        "forkid" => syncnodes::run(seed, tier, out),
+        "forkid-explore" => syncnodes::explore(),
+        "forkid-grind" => syncnodes::grind(),
+        "forkid-worker" => syncnodes::worker(seed, tier, args[4].parse().unwrap_or(0)),
+        "produce" => produce::run(seed, tier, out),
+        "produce-one" => produce::one(&args[2], args[3].parse().unwrap_or(1)),
+        "produce-worker" => produce::worker(seed, tier, args[4].parse().unwrap_or(0)),
+        "atr" => atr::run(seed, tier, out),
+        "atr-worker" => atr::worker(seed, tier, args[4].parse().unwrap_or(0)),
+        "atr-flags" => println!("{}", atr::calibrate()),
+        "atr-one" => atr::one(&args[2..].join(" ")),
         _ => {
             eprintln!("unknown suite {}", suite);
             std::process::exit(2);
